@@ -99,7 +99,8 @@ class C04(Check):
                 hdr = rng.choice(['abc', '1x', '-', '1 2', '0x10'])
             te = rng.choice([None, None, None, 'identity', 'gzip', ''])
             ops = rng.choice([['B'], ['B'], ['B', 'B'], ['P3', 'B'], ['B', 'I'], ['I', 'B'], ['C', 'B'], ['B', 'S'],
-                              ['P0', 'P2', 'B', 'P1', 'I'], ['S', 'B'], []])
+                              ['P0', 'P2', 'B', 'P1', 'I'], ['S', 'B'], [], ['?B', 'B'], ['?S', 'B', 'I'],
+                              ['?B', '?B', 'I'], ['P1', '?S', 'P2', 'B'], ['?C', '?B', '?S']])
             maxb = None if rng.random() < .85 else rng.randint(0, len(data) + 3)
             mk = '@' if rng.random() < .8 else rng.choice(list(bl.MAPS))
             res = bl.run_wsgi(mk, buf, maxb, hdr, te, data, sched, ops)
@@ -141,6 +142,22 @@ class C04(Check):
         w1 = bl.run_wsgi('@', buf, None, str(cl) if cl >= 0 else None, None, data, sched, ['B'])
         if w['calls'] != w1['calls']:
             return 'wsgi:extra-reads', 'later accesses touched the original stream again'
+        # a size limit below Content-Length, the handler catches the 413 and asks again: still no read past it
+        if lim >= 2:
+            w3 = bl.run_wsgi('@', buf, lim - 1, str(cl), None, data, sched, ['?B', '?B', '?S'])
+            for pos, n in w3['calls']:
+                if pos + n > lim:
+                    return ('wsgi:read-beyond-content-length',
+                            f'read({n}) issued at offset {pos} with Content-Length {cl} (repeated access after a 413)')
+        # other accessors first (they may refuse the body as form text), then the body: same bytes
+        for ctype, ops in (('application/json', ['?J', 'B']), ('application/x-www-form-urlencoded', ['?F', 'B']),
+                           (None, ['?S', 'P1', 'B'])):
+            w2 = bl.run_wsgi('@', buf, None, str(cl) if cl >= 0 else None, None, data, sched, ops, ctype=ctype)
+            if w2['status'] != 200 or w2['info'].get('bodies') != [want]:
+                return 'wsgi:body-after-other-accessor', f'Request.body after {ops[0][1:]} differs from the first Content-Length bytes'
+            for pos, n in w2['calls']:
+                if pos + n > lim:
+                    return 'wsgi:read-beyond-content-length', f'read({n}) issued at offset {pos} with Content-Length {cl}'
         return None
 
     def search(self, rng, n, seeds):
